@@ -23,6 +23,52 @@ var luaReadOnly = map[string]bool{"GET": true, "TTL": true, "PTTL": true, "EXIST
 // evalScript finds the single `Do("eval", script, ...)` of a method and
 // returns the script text and the remaining arguments.
 func evalScript(f *ssa.Function) (script string, rest []ssa.Value, site core.Site, nDo int, ok bool) {
+	script, rest, site, nDo, ok = evalScriptIn(f, nil)
+	if ok || nDo > 0 {
+		return
+	}
+	// the EVAL may sit in a helper shared by the operations and unknown to the rule base: the script is
+	// then the constant the operation passes to it
+	for _, cs := range core.Sites(f, true) {
+		g := cs.Callee
+		if g == nil || core.Transparent == nil || !core.Transparent(g) {
+			continue
+		}
+		call, isCall := cs.Instr.(*ssa.Call)
+		if !isCall {
+			continue
+		}
+		s2, r2, st2, n2, ok2 := evalScriptIn(g, call)
+		nDo += n2
+		if ok2 {
+			script, rest, site, ok = s2, r2, st2, true
+		}
+	}
+	return
+}
+
+// electionHelpers: the functions evalScript looked through.
+func isElectionHelper(g *ssa.Function) bool {
+	if g == nil || core.Transparent == nil || !core.Transparent(g) {
+		return false
+	}
+	_, _, _, n, _ := evalScriptIn(g, nil)
+	return n > 0
+}
+
+func evalScriptIn(f *ssa.Function, via *ssa.Call) (script string, rest []ssa.Value, site core.Site, nDo int, ok bool) {
+	argOf := func(v ssa.Value) ssa.Value {
+		if via == nil {
+			return v
+		}
+		u := core.Unwrap(v)
+		for i, p := range f.Params {
+			if ssa.Value(p) == u && i < len(via.Call.Args) {
+				return via.Call.Args[i]
+			}
+		}
+		return v
+	}
 	for _, s := range core.Sites(f, true) {
 		if s.Method != "Do" {
 			continue
@@ -36,7 +82,7 @@ func evalScript(f *ssa.Function) (script string, rest []ssa.Value, site core.Sit
 		if !isV || len(el) < 1 {
 			continue
 		}
-		str, isS := core.ConstString(el[0])
+		str, isS := core.ConstString(argOf(el[0]))
 		if !isS {
 			continue
 		}
@@ -119,8 +165,8 @@ func c15(w *core.World, r *core.Report) {
 		if f.Signature.Recv() == nil || !strings.HasSuffix(core.TypeName(f.Signature.Recv().Type()), "redisElection") {
 			continue
 		}
-		if f == camp || f == res {
-			continue
+		if f == camp || f == res || isElectionHelper(f) {
+			continue // the helper's EVAL is checked with the operations that call it
 		}
 		for _, s := range core.Sites(f, true) {
 			if s.Method == "Do" {
@@ -350,8 +396,15 @@ func ruleRenewWiring(w *core.World, r *core.Report) {
 	if f != nil {
 		// the inner closure that retries the renewal
 		var inner *ssa.Function
-		for _, c := range core.DeepFuncs(f)[1:] {
-			if len(core.SitesNamed(c, false, "pkg/util.Retry")) > 0 {
+		// (a closure of the ticker, or a function split off from it)
+		for _, c := range append(core.DeepFuncs(f)[1:], core.ExpandedCallees(f)...) {
+			has := false
+			for _, in := range core.OwnInstrs(c) {
+				if ci, ok := in.(ssa.CallInstruction); ok && core.ResolveCall(ci).Name == "pkg/util.Retry" {
+					has = true
+				}
+			}
+			if has {
 				inner = c
 			}
 		}
